@@ -124,11 +124,18 @@ impl Display for IdentiCall {
     }
 }
 
+/// Identifiers which are literals of the language: these may be used, but never defined.
+pub const LITERAL_NAMES: [&str; 3] = ["None", "True", "False"];
+
 impl TryFrom<&AST> for Identifier {
     type Error = Vec<TypeErr>;
 
     fn try_from(ast: &AST) -> TypeResult<Identifier> {
         match &ast.node {
+            Node::Id { lit } if LITERAL_NAMES.contains(&lit.as_str()) => {
+                let msg = format!("{lit} is a literal, it cannot be defined or assigned to");
+                Err(vec![TypeErr::new(ast.pos, &msg)])
+            }
             Node::Id { lit } => Ok(Identifier::from((true, lit.as_str()))),
             Node::ExpressionType { expr, mutable, .. } => {
                 let identifier = Identifier::try_from(expr.deref())?;
